@@ -1,2 +1,15 @@
 import FpVerif.Properties.C20
-#print axioms Fp.C20.placeholder
+#print axioms Fp.C20.consume_spec
+#print axioms Fp.C20.control_first_rr
+#print axioms Fp.C20.control_first_random
+#print axioms Fp.C20.findIdx_ready
+#print axioms Fp.C20.popRR_stream
+#print axioms Fp.C20.respects_windows_rr
+#print axioms Fp.C20.pieces_concatenate
+#print axioms Fp.C20.pop_none_iff_rr
+#print axioms Fp.C20.push_conserves_rr
+#print axioms Fp.C20.pop_conserves_rr
+#print axioms Fp.C20.pop_keys_rr
+#print axioms Fp.C20.pushRR_out
+#print axioms Fp.C20.account_balanced
+#print axioms Fp.C20.conservation_rr
